@@ -30,15 +30,29 @@
     * `c15_machine_counterexample_*` — outside those hypotheses the machine really derails, as kernel-checked
       evaluations of the model: an empty record list, a record without fields in final position, a linked list of
       depth 3 (findings F33, F5b, F5a); the implementation is compared with the model on these shapes on every run.
+    * `c15_machine_json_reader`, `c15_machine_reads_spec`, `c15_machine_round_trip` — the READ side of the grammar
+      machine (AvroJSONDecoder driven by `read_data`: frame stack, `_current`, `_key`, `_push_and_adjust`,
+      `read_index` re-binding the union member, `iter_array`'s pop(0), `iter_map`'s del, lazily executed actions,
+      `drain_actions` between documents; model JM.decodeAll) returns exactly what the function-level reader returns
+      — hence, on the specification's encodings, the records as written — for every schema whose map values leave no
+      pop pending (`DOk`: primitives, enums, fixed, arrays, maps, unions of those as map values; records anywhere
+      else), documents of the writer's shape (`Fits`; proved of every specification encoding: `spec_fits`), with
+      proper objects (`KeysOk`) and below the model's iteration bound (`Small`), any depth, any number of documents;
+      `c15_machine_round_trip`: write then read on the machine gives the records as written;
+    * `c15_machine_counterexample_map_of_nested_records` — outside `DOk` the machine really fails (finding F28):
+      a map of records that end in a record is written, and read by the function-level reader, but `iter_map` pops
+      the frame `RecordStart` pushed and the `del` hits the wrong object (kernel-checked evaluation).
   NOT PROVED (checked by the harness on the implementation and against the model): agreement with the
   binary codec (C01's normal form differs from `Spec.written` only in single-precision rounding and
   int → float conversion under float/double), defaults of fields absent from a JSON text that
-  `json_writer` did not produce; the READ side of the grammar machine (AvroJSONDecoder driven by `read_data`), which
-  is modelled (JM.decodeAll) and tied by correspondence only — see known findings F5a–d, F14, F27, F28, F33.
+  `json_writer` did not produce (the read-side theorems ask for every field to be present); the read side for maps
+  whose values are records (one level works in the implementation and in the model, two levels fail: F28) — see
+  known findings F5a–d, F14, F27, F28, F33.
 -/
 import Proofs.Json
 import Proofs.JsonBack
 import Proofs.JsonMachine
+import Proofs.JsonMachineDec
 
 open Binary Json JsonProofs
 
@@ -154,3 +168,121 @@ example : encodeAll true 6 [] {} c15rec [.dict [(.str "a", .int 5)], .dict [(.st
   · intro n d h; cases h
   · intro n d h; cases h
   · exact .cons ⟨rfl, hk 5⟩ (.cons ⟨rfl, hk 7⟩ .nil)
+
+
+/-! ### the grammar machine (read side) -/
+open JMDec
+
+theorem pairwise2_of_forall {α : Type} (P : Val → Val → Prop) (f g : α → Val) :
+    ∀ (l : List α), (∀ t ∈ l, P (f t) (g t)) → Pairwise2 P (l.map f) (l.map g) := by
+  intro l
+  induction l with
+  | nil => intro _; exact .nil
+  | cons t ts ih => intro h; exact .cons (h t (by simp)) (ih (fun u hu => h u (by simp [hu])))
+
+theorem envNamed_of_envOk {env : Env} (h : EnvOk env) : JsonBack.EnvNamed env := fun n d hg => (h n d hg).1
+
+/-- `json_reader` on the machine: for a schema whose map values are flat (`DOk`), JSON documents of the writer's
+    shape (`Fits`), with proper objects (`KeysOk`) and below the model's iteration bound (`Small`): the records
+    returned are those of the function-level reader, in order -/
+theorem c15_machine_json_reader (env : Env) (henv : EnvOk env) (hself : EnvNoSelf env) (fuel : Nat)
+    (s : Schema) (hs : noSelf s = true) (hne : nonEmptyRec s = true) (hok : DOk env s) (ps : List Sym)
+    (hinit : initialStack fuel env s = .ok ps) (docs ws : List Val)
+    (hall : Pairwise2 (fun j w => Json.decode fuel env s j = .ok w ∧ Fits env fuel s j ∧ KeysOk j ∧ Small j) docs ws) :
+    decodeAll fuel env s docs = .ok ws := by
+  obtain ⟨G, rfl, hG⟩ := initialStack_gram env hself fuel s ps hinit hs
+  exact decodeAll_sound env henv fuel s G hG hne hok hinit docs ws hall
+
+/-- … in particular the specification's JSON encodings are read back as the records as written -/
+theorem c15_machine_reads_spec (env : Env) (henv : EnvOk env) (hself : EnvNoSelf env) (o : WOpts) (fuel : Nat)
+    (s : Schema) (hs : noSelf s = true) (hne : nonEmptyRec s = true) (hok : DOk env s) (ps : List Sym)
+    (hinit : initialStack fuel env s = .ok ps) (recs : List (Val × Val × Val))
+    (hall : ∀ t ∈ recs,
+      Spec.jsonEncodeCore (fun f bs v => (choose f env o bs v).toOption) fuel env s t.1 = some t.2.1 ∧
+      Spec.written (fun f bs v => (choose f env o bs v).toOption) fuel env s t.1 = some t.2.2 ∧
+      KeysOk t.2.1 ∧ Small t.2.1) :
+    decodeAll fuel env s (recs.map (·.2.1)) = .ok (recs.map (·.2.2)) := by
+  refine c15_machine_json_reader env henv hself fuel s hs hne hok ps hinit _ _ ?_
+  refine pairwise2_of_forall _ _ _ recs ?_
+  intro t ht
+  obtain ⟨hj, hw, hk, hsm⟩ := hall t ht
+  exact ⟨JsonBack.decode_encode _ env (envNamed_of_envOk henv) fuel s t.1 t.2.1 t.2.2 hj hw,
+    spec_fits _ env (envNamed_of_envOk henv) fuel s t.1 t.2.1 t.2.2 hj hw, hk, hsm⟩
+
+/-- write, then read, on the machine: a non-empty list of records goes through `json_writer` as the
+    specification's encodings and comes back through `json_reader` as the records as written -/
+theorem c15_machine_round_trip (env : Env) (henv : EnvOk env) (hself : EnvNoSelf env) (o : WOpts) (fuel : Nat)
+    (s : Schema) (hs : noSelf s = true) (hne : nonEmptyRec s = true) (hok : DOk env s) (ps : List Sym)
+    (hinit : initialStack fuel env s = .ok ps) (t0 : Val × Val × Val) (recs : List (Val × Val × Val))
+    (hall : ∀ t ∈ t0 :: recs,
+      Spec.jsonEncodeCore (fun f bs v => (choose f env o bs v).toOption) fuel env s t.1 = some t.2.1 ∧
+      Spec.written (fun f bs v => (choose f env o bs v).toOption) fuel env s t.1 = some t.2.2 ∧
+      KeysOk t.2.1 ∧ Small t.2.1) :
+    encodeAll true fuel env o s ((t0 :: recs).map (·.1)) = .ok ((t0 :: recs).map (·.2.1)) ∧
+    decodeAll fuel env s ((t0 :: recs).map (·.2.1)) = .ok ((t0 :: recs).map (·.2.2)) := by
+  refine ⟨?_, c15_machine_reads_spec env henv hself o fuel s hs hne hok ps hinit (t0 :: recs) hall⟩
+  have := pairwise2_of_forall
+    (fun v j => Spec.jsonEncodeCore (fun f bs v => (choose f env o bs v).toOption) fuel env s v = some j ∧ KeysOk j)
+    (·.1) (·.2.1) (t0 :: recs) (fun t ht => ⟨(hall t ht).1, (hall t ht).2.2.1⟩)
+  exact c15_machine_emits_spec env henv hself o fuel s hs hne ps hinit _ _ _ _ this
+
+def c15inner : Schema := .record "S" [.mk "c" (.prim .int false none) none []] []
+def c15outer : Schema := .record "R" [.mk "a" (.prim .int false none) none [], .mk "b" c15inner none []] []
+def c15mapRR : Schema := .map c15outer
+def c15mapRRval : Val := .dict [(.str "k", .dict [(.str "a", .int 1), (.str "b", .dict [(.str "c", .int 2)])])]
+
+/-- F28: a map whose values are records that end in a record: written, and read by the function-level reader, but
+    the machine's `iter_map` pops the wrong frame (KeyError on the map key) -/
+theorem c15_machine_counterexample_map_of_nested_records :
+    (match encodeAll true 8 [] {} c15mapRR [c15mapRRval], Json.decode 8 [] c15mapRR c15mapRRval, decodeAll 8 [] c15mapRR [c15mapRRval] with
+     | .ok [.dict [(.str "k", .dict [(.str "a", .int 1), (.str "b", .dict [(.str "c", .int 2)])])]],
+       .ok (.dict [(.str "k", .dict [(.str "a", .int 1), (.str "b", .dict [(.str "c", .int 2)])])]), .error .index => true
+     | _, _, _ => false) = true := by decide +kernel
+
+example : DOk [] c15schema := by
+  refine .record _ _ _ (by decide) ?_
+  intro f hf
+  simp only [List.mem_cons, List.not_mem_nil, or_false] at hf
+  rcases hf with rfl | rfl | rfl
+  · exact .union _ (by
+      intro b hb
+      simp only [List.mem_cons, List.not_mem_nil, or_false] at hb
+      rcases hb with rfl | rfl
+      · exact .prim _ _ _
+      · exact .enum _ _ _ _)
+  · exact .prim _ _ _
+  · exact .map _ (.prim _ _ _) (.prim _ _ _)
+
+/-! non-vacuity of `c15_machine_round_trip`: two records written and read through the machine -/
+example : encodeAll true 6 [] {} c15rec [.dict [(.str "a", .int 5)], .dict [(.str "a", .int 7)]]
+      = .ok [.dict [(.str "a", .int 5)], .dict [(.str "a", .int 7)]] ∧
+    decodeAll 6 [] c15rec [.dict [(.str "a", .int 5)], .dict [(.str "a", .int 7)]]
+      = .ok [.dict [(.str "a", .int 5)], .dict [(.str "a", .int 7)]] := by
+  have hk : ∀ n : Int, KeysOk (.dict [(.str "a", .int n)]) := by
+    intro n
+    refine .dict _ ?_ ?_ ?_
+    · intro p hp; simp only [List.mem_singleton] at hp; subst hp; exact ⟨"a", rfl, by decide⟩
+    · simp [dictKeys]
+    · intro p hp; simp only [List.mem_singleton] at hp; subst hp
+      exact .leaf _ (by intro kv h; cases h) (by intro xs h; cases h)
+  have hs : ∀ n : Int, Small (.dict [(.str "a", .int n)]) := by
+    intro n
+    refine .dict _ (by simp [DFUEL]) ?_
+    intro p hp; simp only [List.mem_singleton] at hp; subst hp
+    exact .leaf _ (by intro kv h; cases h) (by intro xs h; cases h)
+  have hok : DOk [] c15rec := by
+    refine .record _ _ _ (by decide) ?_
+    intro f hf
+    simp only [List.mem_singleton] at hf
+    subst hf
+    exact .prim _ _ _
+  have := c15_machine_round_trip [] (by intro n d h; cases h) (by intro n d h; cases h) {} 6 c15rec rfl rfl hok _ rfl
+    (.dict [(.str "a", .int 5)], .dict [(.str "a", .int 5)], .dict [(.str "a", .int 5)])
+    [(.dict [(.str "a", .int 7)], .dict [(.str "a", .int 7)], .dict [(.str "a", .int 7)])]
+    (by
+      intro t ht
+      simp only [List.mem_cons, List.not_mem_nil, or_false] at ht
+      rcases ht with rfl | rfl
+      · exact ⟨rfl, rfl, hk 5, hs 5⟩
+      · exact ⟨rfl, rfl, hk 7, hs 7⟩)
+  simpa using this
